@@ -3,7 +3,7 @@
    `toml!{ tokens_of l }` with the rules of macros.rs returns exactly t — within the model's own fuel. *)
 From TV Require Import Base.Prelude Base.Utf8 Model.Datetime Model.DatetimeStd Model.Numbers Model.Macro Spec.Defs Spec.MacroSpec.
 From TV Require Import Proofs.MacroSem Proofs.MacroMatch Proofs.MacroRules Proofs.MacroTails Proofs.MacroEval Proofs.MacroAux
-  Proofs.MacroCtx Proofs.MacroStmt Proofs.MacroScalar Proofs.MacroDoc Proofs.MacroFuel Proofs.MacroDt.
+  Proofs.MacroCtx Proofs.MacroStmt Proofs.MacroScalar Proofs.MacroDoc Proofs.MacroFuel Proofs.MacroDt Proofs.MacroEq.
 
 Theorem macro_eq_parse : forall l t, macro_supported l = true -> eval l = Some t -> macro_eval (tokens_of l) = EOk t.
 Proof.
@@ -20,3 +20,13 @@ Proof. exact (val_ev_holds dt_agree). Qed.
 (* the expansion never runs out of the fuel the model provides, and never fails, on supported valid documents *)
 Corollary macro_total : forall l, macro_supported l = true -> valid l -> exists t, macro_eval (tokens_of l) = EOk t.
 Proof. intros l Hs [t Ht]. exists t. apply macro_eq_parse; assumption. Qed.
+
+(* against the unmodified claims specification (Spec/Defs.v `spec_run`, what C09 proves the parser's state
+   machine equal to): the macro's table has the same content as the specified tree under every key,
+   recursively; only the order of keys may differ (a toml::Table is a BTreeMap: not observable) *)
+Theorem macro_eq_spec : forall l tr, macro_supported l = true -> spec_eval l = Some tr ->
+  exists t, macro_eval (tokens_of l) = EOk (MTab (erase_tree t)) /\ Same mval t tr.
+Proof.
+  intros l tr Hs H. destruct (eval_same_as_spec l tr H) as [t [He HS]].
+  exists t. split; [apply macro_eq_parse; assumption|exact HS].
+Qed.
